@@ -294,7 +294,7 @@ inline void tr_C08(const WSnap& pre, const CallInfo& ci, Outcome oc, const WSnap
         return;
     }
     if (ci.kind == K_RELOAD || ci.kind == K_LOAD_ROOT) return;
-    if (!regsSame(pre, post)) V(out, "C08", "object_call_changed_caller_frame/" + opcls, "an object-side call changed the caller's frame object");
+    if (ci.dev.compare(0, 14, "copy-of-stored") != 0 && !regsSame(pre, post)) V(out, "C08", "object_call_changed_caller_frame/" + opcls, "an object-side call changed the caller's frame object");
     if (oc != OK) return;
     if (ci.kind == K_EDIT_STORED) {
         for (size_t i = 0; i < pre.o.frames.size() && i < post.o.frames.size(); ++i)
@@ -324,6 +324,10 @@ inline void tr_C08(const WSnap& pre, const CallInfo& ci, Outcome oc, const WSnap
 // C09 — parameter and group edits change exactly what was asked
 // ================================================================================================
 inline void tr_C09(const WSnap& pre, const CallInfo& ci, Outcome oc, const WSnap& post, Sink& out) {
+    if (oc != OK && ci.kind == K_PARAM) {   // "adding a parameter … creates / replaces / appends": a named, typed parameter whose values fill its dimensions is never refused
+        const PSnap& g = ci.givenParam; bool typed = g.type == -1 || g.type == 1 || g.type == 2 || g.type == 4;
+        if (!g.name.empty() && typed) V(out, "C09", std::string("well_formed_parameter_refused/") + outcomeName(oc) + "/type=" + SI(g.type), ci.group + ":" + g.name);
+    }
     if (oc != OK) return;
     const OSnap& a = pre.o; const OSnap& b = post.o;
     if (ci.kind == K_PARAM) {
